@@ -6,7 +6,7 @@
    comment), operator and value.  A nil *MkLine is never passed to Define/Use by the callers
    (Define would dereference it), so lines are total here and nil results are `None`. *)
 From Coq Require Import List NArith Bool.
-From PV Require Import Lib.Bytes.
+From PV Require Import Lib.Bytes Lib.PanicRes.
 Import ListNotations.
 Open Scope N_scope.
 
@@ -197,3 +197,42 @@ Fixpoint scope_trace (st : sstate) (h : list sop) (names : list str) : list (lis
   | [] => []
   | o :: t => let st' := sstep st o in map (observe st') names :: scope_trace st' t names
   end.
+
+(* ---- Scope.DefineAll ---- *)
+
+(* bytewise lexicographic order of sort.Strings *)
+Fixpoint str_leb (a b : str) : bool :=
+  match a, b with
+  | [], _ => true
+  | _ :: _, [] => false
+  | x :: a', y :: b' => if x <? y then true else if y <? x then false else str_leb a' b'
+  end.
+
+Fixpoint insert_sorted (k : str) (l : list str) : list str :=
+  match l with
+  | [] => [k]
+  | x :: t => if str_leb k x then k :: l else x :: insert_sorted k t
+  end.
+
+(* Scope.varnames: the keys of vs, sorted *)
+Definition varnames (st : sstate) : list str := fold_right insert_sorted [] (map fst st).
+
+(* one iteration of the loop of DefineAll: v := other.vs[varname] (Panic 7: nil entry, cannot happen
+   for a name taken from the map); Define(varname, v.firstDef); Define(varname, v.lastDef), where a nil
+   lastDef would be dereferenced by Define (Panic 6) *)
+Definition define_all_step (other : sstate) (acc : res sstate) (k : str) : res sstate :=
+  bind acc (fun a =>
+    match slookup other k with
+    | None => Panic 7
+    | Some x =>
+      match v_first x with
+      | None => Ok a
+      | Some f => match v_last x with
+                  | None => Panic 6
+                  | Some l => Ok (sdefine (sdefine a k f) k l)
+                  end
+      end
+    end).
+
+Definition sdefine_all (st other : sstate) : res sstate :=
+  fold_left (define_all_step other) (varnames other) (Ok st).
